@@ -7,6 +7,8 @@ mode:生成的加密算法
 void multiruncrypt_file(u8_t id, Aesmode &mode)
 {
   buffergroup *iobuffer = buffergroup::get_instance();
+  // the buffer belongs to the I/O thread until it has been marked READY (or INV): do not look at it before
+  iobuffer->wait_buffer(id);
   for (u8_t *block = iobuffer->require_buffer_entry(id); block != NULL; block = iobuffer->require_buffer_entry(id))
     mode.runcry(block);
 };
